@@ -189,6 +189,15 @@ func SignHashed(rand io.Reader, priv, e []byte) (r, s []byte, err error) {
 			continue
 		}
 
+		// k must lie in [1, n-1]: k = 0 is rejected as well
+		var kBits byte
+		for _, b := range K {
+			kBits |= b
+		}
+		if kBits == 0 {
+			continue
+		}
+
 		var kG *internal.SM2Point
 		KK := K[:]
 		kG, err = internal.ScalarBaseMult(KK)
